@@ -9,14 +9,16 @@
      - types.                                                                                   *)
 EXTENDS RTableEnv
 
-CONSTANTS MaxLen, MaxEdits
+CONSTANTS MaxLen, MaxEdits, EditInApply
 VARIABLE nEdits
 
 IdealTouched(k, d) ==
-    LET T == Target(k, d) IN
-    { c \in DOMAIN k \cup DOMAIN T : c \notin DOMAIN k \/ c \notin DOMAIN T \/ ~ChainAtTarget(k, d, c) }
+    LET T == Target(k, d)
+        R == Ref(d) IN
+    { c \in DOMAIN k \cup DOMAIN T : c \notin DOMAIN k \/ c \notin DOMAIN T \/ ~ChainAtTargetR(k, d, c, R) }
 
 MInit == \E c \in Cfgs, k \in StartKernels : 
+            /\ (DOMAIN k = {} => c.ownsAll)        \* iptables: the built-in chains always exist
             /\ cfg = c /\ kernel = k
             /\ desired = [chains |-> [x \in {} |-> <<>>], ins |-> [x \in KCh |-> <<>>], app |-> [x \in KCh |-> <<>>]]
             /\ belief = [stale |-> TRUE, due |-> TRUE]
@@ -28,7 +30,7 @@ MSetChain == \E c \in DesChains : \E rs \in ChainMenu(c) : SetChain(c, rs)
 MRemoveChain == \E c \in DOMAIN desired.chains : RemoveChain(c)
 MSetIns == \E k \in KCh, rs \in InsMenu : SetIns(k, rs)
 MSetApp == \E k \in KCh, rs \in AppMenu : SetApp(k, rs)
-MEdit == nEdits < MaxEdits /\ nEdits' = nEdits + 1 /\ \E e \in Edits : EditFn(kernel, e) # kernel /\ ExternalEdit(EditFn(kernel, e))
+MEdit == nEdits < MaxEdits /\ (EditInApply \/ Idle) /\ nEdits' = nEdits + 1 /\ \E e \in Edits : EditFn(kernel, e) # kernel /\ ExternalEdit(EditFn(kernel, e))
 MTick == belief.stale /\ ~belief.due /\ Tick
 MRestart == Restart
 MApplyBegin == ApplyBegin
